@@ -34,10 +34,7 @@ theorem encode_length {ie : IE} {v : Value} {bs : Bytes} (h : encodeElem ie v = 
     · simp [hfix] at h ⊢
       obtain ⟨hl, rfl⟩ := h; exact hl
     · simp [hfix] at h ⊢; exact encodeVar_length h
-  case string.bytes b =>
-    by_cases hv : len = 65535
-    · simp [hv] at h; exact encodeVar_length h
-    · simp [hv] at h
+  case string.bytes b => exact encodeVar_length h
   case boolean.bool b => obtain ⟨rfl, rfl⟩ := h; simp
   case macAddress.bytes b => obtain ⟨⟨rfl, h6⟩, rfl⟩ := h; exact h6
   case ipv4Address.bytes b => obtain ⟨rfl, h⟩ := h; exact to4_length h
@@ -80,7 +77,6 @@ theorem decode_encode {ie : IE} {v : Value} {bs : Bytes} (rest : Bytes)
     rw [decodeField_fixed _ _ _ (by simp) (by simp [h6])]; simp [decodeElem, canon]
   case string.bytes b =>
     subst hwf
-    simp at h
     rw [decodeField_var _ b _ _ (by simp) h]; simp [decodeElem, canon]
   case ipv4Address.bytes b =>
     obtain ⟨rfl, h⟩ := h
